@@ -158,7 +158,7 @@ func (g *Gateway) introspectSchema(schema *introspection.Schema, selectionSet as
 	result := map[string]interface{}{}
 
 	for _, field := range graphql.SelectedFields(selectionSet) {
-		switch field.Alias {
+		switch field.Name {
 		case "types":
 			result[field.Alias] = g.introspectTypeSlice(schema.Types(), field.SelectionSet)
 		case "queryType":
